@@ -58,7 +58,9 @@ let cmd_name (req : json) : json = jsite jtext (name_from_string (text_of (field
 
 let cmd_loop (req : json) : json =
   let c = to_z (field req "count") in
-  Obj [ ("iterations", jz (loop_iterations c)); ("known", Bool (known_loop_count_huge c)) ]
+  match jsite jz (loop_enter (to_z (field req "used")) c) with
+  | Obj l -> Obj (l @ [ ("iterations", jz (loop_iterations c)) ])
+  | j -> j
 
 let graph_of (j : json) : nat list list = List.map (fun l -> List.map (fun x -> nat_of_int (to_int x)) (to_list l)) (to_list j)
 let jdepth = function
@@ -69,24 +71,20 @@ let cmd_depth (req : json) : json =
   let g = graph_of (field req "graph") in
   match to_str (field req "kind") with
   | "import" -> jdepth (import_depth g)
-  | _ -> (match jdepth (macro_depth g) with Obj l -> Obj (l @ [ ("known", Bool (known_macro_recursion g)) ]) | j -> j)
+  | _ -> jdepth (macro_depth g)
 
-let cmd_bank (req : json) : json =
-  let size = to_z (field req "size") in
-  match jsite jz (bank_padding size (to_z (field req "len")) (to_bool (field req "fill"))) with
-  | Obj l -> Obj (l @ [ ("known", Bool (known_bank_size_huge size)) ])
-  | j -> j
+(* entering a container at the given depth: code generator / parser *)
+let cmd_enter (req : json) : json =
+  let d = nat_of_int (to_int (field req "depth")) in
+  jsite jnat (match to_str (field req "kind") with "parser" -> parser_enter d | _ -> codegen_enter d)
+
+let cmd_bank (req : json) : json = jsite jz (bank_padding (to_z (field req "size")) (to_z (field req "len")) (to_bool (field req "fill")))
 
 let cmd_branch (req : json) : json =
   let cur = to_opt to_z (field req "cur") in
   jsite jz (branch_offset cur (to_z (field req "target")))
 
-let cmd_known (req : json) : json =
-  let l = ref [] in
-  (match field req "text" with Null -> () | j ->
-     let t = text_of j in
-     l := ("nesting", jnat (nesting_depth O O t)) :: ("deep", Bool (known_deep_nesting t)) :: !l);
-  Obj !l
+let cmd_nesting (req : json) : json = Obj [ ("nesting", jnat (nesting_depth O O (text_of (field req "text")))) ]
 
 (* the loop of codegen() replayed over the per-pass observations of hook H1 *)
 let cmd_replay (req : json) : json =
@@ -106,7 +104,9 @@ let cmd_replay (req : json) : json =
 
 let cmd_consts (_ : json) : json =
   Obj [ ("max_iterations", jopt jnat max_iterations); ("cap_reports_diagnostic", Bool cap_reports_diagnostic);
-        ("nesting_limit", jnat nesting_limit); ("huge_loop_threshold", jz huge_loop_threshold) ]
+        ("nesting_depth_limit", jopt jnat nesting_depth_limit); ("parser_nesting_limit", jopt jnat parser_nesting_limit);
+        ("loop_count_limit", jopt jz loop_count_limit); ("bank_size_limit", jopt jz bank_size_limit);
+        ("nested_call_returns", Bool (match nested_call_of_same_function with CallReturns -> true | CallDeadlocks -> false)) ]
 
 let () = main_loop [ ("binop", cmd_binop); ("literal", cmd_literal); ("stmt", cmd_stmt); ("name", cmd_name); ("segment", cmd_segment); ("loop", cmd_loop);
-                     ("depth", cmd_depth); ("bank", cmd_bank); ("branch", cmd_branch); ("known", cmd_known); ("replay", cmd_replay); ("consts", cmd_consts) ]
+                     ("depth", cmd_depth); ("bank", cmd_bank); ("branch", cmd_branch); ("nesting", cmd_nesting); ("enter", cmd_enter); ("replay", cmd_replay); ("consts", cmd_consts) ]
